@@ -37,7 +37,7 @@ def main():
             shutil.copy('/repo/Cargo.lock', os.path.join(wt, 'Cargo.lock'))
             p = os.path.join(wt, path)
             s = open(p).read()
-            if s.count(old) != 1:
+            if s.count(old) != (2 if name.startswith('F07') else 1):   # F07: &mut C and Option<&mut C> impls share the text; break both
                 print(name, 'PATTERN COUNT', s.count(old)); results[name] = 'pattern'; continue
             open(p, 'w').write(s.replace(old, new))
             d = subprocess.check_output(['git', '-C', wt, 'diff'], text=True)
